@@ -2,6 +2,7 @@
 use crate::rng::Rng;
 use std::collections::{BTreeMap, HashSet};
 
+pub mod c04;
 pub mod c12;
 pub mod lang;
 
@@ -62,6 +63,7 @@ pub fn generate(prop: &str, tier: &str, g: &mut Gen) {
     match prop {
         "C12" => c12::generate(g, thorough),
         "C03" => lang::generate_c03(g, thorough),
+        "C04" => c04::generate(g, thorough),
         _ => {}
     }
 }
